@@ -21,10 +21,20 @@ PY = sys.executable
 
 
 def sh_worker(prop, hname, mode, part, tier, budget, kf_ids):
+    """One analysis in its own process.  A worker that overruns its hard wall limit (a loaded machine: the
+    CrossHair budget is wall time too) is retried once before the job is reported as undecided."""
+    r = _sh_worker(prop, hname, mode, part, tier, budget, kf_ids)
+    if r["verdict"] == "TIMEOUT":
+        r = _sh_worker(prop, hname, mode, part, tier, budget, kf_ids)
+        r["retried"] = True
+    return r
+
+
+def _sh_worker(prop, hname, mode, part, tier, budget, kf_ids):
     cmd = [PY, "-m", "xv.worker", prop, hname, mode, json.dumps(part), tier, str(budget), json.dumps(sorted(kf_ids))]
     t0 = time.time()
     try:
-        p = subprocess.run(cmd, cwd=HERE, capture_output=True, text=True, timeout=budget * 1.5 + 60)
+        p = subprocess.run(cmd, cwd=HERE, capture_output=True, text=True, timeout=budget * 2 + 120)
         outtxt, err = p.stdout, p.stderr
     except subprocess.TimeoutExpired as e:
         return {"prop": prop, "harness": hname, "mode": mode, "part": part, "verdict": "TIMEOUT",
